@@ -27,6 +27,7 @@ Round 5:
   use id=<k>                => ok    Server.Use(middleware u<k>) (trail tokens u<k>, outside the route's own middlewares)
   start                     => listen | panic:<verdict>   Server.Start() on a port that cannot be opened
   cfg must=1                         the server is built by rest.MustNewServer
+  other m=<method> p=<path> => clean=… <outcome>   a second rest.Server (route GET /other/:o -> h=9999) serves the request
 Sections  `begin kind=tree` (core/search.Tree directly, raw strings):
   tadd p=<route> h=<id|nil>   => ok|dup|dupslash|notfromroot|empty
   tsearch p=<route> n=<k>     => h=<id> vars=… | none          (distinct outcomes, sorted, ` | `-separated)
@@ -615,6 +616,23 @@ def runSection (r : Report) (s : Section) : Report := Id.run do
         if kvStr s.cfg "kind" = "server" then st := { st with built := true }
         r := runReq r st s.idx l m p (arg "auth=" args) (kvStr s.cfg "kind" = "server") (arg "ctx=" args) (arg "beh=" args)
         st := { st with served := true }
+      | _, _ => r := r.mismatch s.idx l.idx "bad-op" (joinSp l.op)
+    | "other" :: args =>
+      -- a second rest.Server alive at the same time: NewServer(), AddRoute(GET /other/:o -> 9999), bindRoutes
+      match arg "m=" args, arg "p=" args with
+      | some m, some p =>
+        let regsO : List Reg := [("GET", "/other/:o", some 9999)]
+        let prO : PatRouter := { (newServer []).router with core := (bindGroups {} [regsO]).1 }
+        let tblO := (Spec.bindTable [] regsO).1
+        let det := fmtResponse (prO.serveHTTP m p)
+        let impl := joinSp (l.obs.drop 1)
+        r := r.addCover "two-servers-alive"
+        r := r.addCover (match prO.serveHTTP m p with
+          | .route _ _ => "other-server-own-route" | .defaultNotAllowed _ => "other-server-405" | _ => "other-server-404")
+        if impl ≠ det then r := r.mismatch s.idx l.idx det impl
+        match monitorReq tblO true (customOf prO) m p impl with
+        | some msg => r := r.violation s.idx l.idx s!"second server, request {m} {p}: {msg}"
+        | none => pure ()
       | _, _ => r := r.mismatch s.idx l.idx "bad-op" (joinSp l.op)
     | "tadd" :: args =>
       match arg "p=" args, (arg "h=" args).bind parseItem with
